@@ -995,3 +995,23 @@ Fixpoint triples_eqb (a b : list (string * string * string)) : bool :=
 Definition ctx_contract_ok (writes reads : list (string * string * string)) : bool :=
   triples_eqb reads ctx_reads_model
   && triples_eqb (filter (fun w => existsb (fun r => String.eqb (fst (fst w)) (fst (fst r))) ctx_reads_model) writes) ctx_writers_model.
+
+(* pipefuzz with an insert service that answers every request with an error: the handler still receives every response,
+   awaits the promises and answers 500 (plain error, wrapped by retry.Do) -- unless an error response came first, which
+   is returned at once; what was pushed stays pushed.  fail = code of the failing service, -1 = none. *)
+Definition with_failing_service (fail : Z) (x : cls * list obatch) : cls * list obatch :=
+  let '(k, bs) := x in
+  (match k with
+   | C2xx => if existsb (fun ob => Z.eqb (fst ob) fail) bs then C5xx else C2xx
+   | _ => k
+   end, bs).
+Definition pipe_mismatch_f (h : handler_prog) (sf af : list string) (fail : Z) (c : pcase) : bool :=
+  let '(k, bs) := with_failing_service fail (pipe_expected h sf af c) in
+  negb (accepts (Exact k) (pc_outcome c) && same_batches bs (pc_batches c)).
+Definition lpipe_mismatch_f (p : entries_prog) (sf tf : list string) (fail : Z) (c : lcase) : bool :=
+  let '(k, bs) := with_failing_service fail (lpipe_expected p sf tf c) in
+  negb (accepts (Exact k) (lc_outcome c) && same_batches bs (lc_batches c)).
+Definition pipe_mismatches_f (h : handler_prog) (sf af : list string) (cs : list (Z * pcase)) : list Z :=
+  map (fun fc => pc_id (snd fc)) (filter (fun fc => pipe_mismatch_f h sf af (fst fc) (snd fc)) cs).
+Definition lpipe_mismatches_f (p : entries_prog) (sf tf : list string) (cs : list (Z * lcase)) : list Z :=
+  map (fun fc => lc_id (snd fc)) (filter (fun fc => lpipe_mismatch_f p sf tf (fst fc) (snd fc)) cs).
